@@ -62,3 +62,21 @@ def needle_pda(rng, depth=None):
     if rng.random() < 0.5:
         delta.append([Q[-1], 'a', e, [[Q[-1], e]]])
     return {'kind': 'pda', 'Q': Q, 'Sigma': ['a'], 'Gamma': ['x', 'y'], 'delta': delta, 'q0': 's0', 'F': [Q[-1]], 'eps': e}
+
+
+def big_closure_pda(rng, depth=None):
+    """A PDA whose epsilon-closure is FINITE but large: a full binary tree of stacks of bounded depth (2^(d+1)-1
+    configurations of the tree, plus what follows), with accepting computations that are discovered late in a
+    breadth-first exploration.  Used with closure limits just below / above the closure size, including limits
+    above the default 1000 (the limit is an ambient setting that may be raised after import)."""
+    d = depth or rng.choice([8, 9, 9, 10])
+    e = 'ε'
+    Q = ['s%d' % i for i in range(d + 1)] + ['acc']
+    delta = []
+    for i in range(d):
+        delta.append([Q[i], e, e, [[Q[i + 1], 'x'], [Q[i + 1], 'y']]])
+    pat = rng.choice('xy')
+    delta.append([Q[d], 'a', pat, [['acc', e]]])
+    if rng.random() < 0.5:
+        delta.append(['acc', e, rng.choice('xy'), [['acc', e]]])
+    return {'kind': 'pda', 'Q': Q, 'Sigma': ['a'], 'Gamma': ['x', 'y'], 'delta': delta, 'q0': 's0', 'F': ['acc'], 'eps': e}
